@@ -599,6 +599,28 @@ func streamReader(c *corrOut, g *inputGen, r *rng, n int, thorough bool) {
 			}
 		}
 	}
+	// C08: unknown CSI sequences of every length are consumed whole (never leaking as text): short ones,
+	// long parameter lists (an in-band resize report, a device-attributes answer, a colour query answer)
+	for _, u := range []event{
+		evUnknownCSI([]byte("12;3"), []byte("$"), 'y'), evUnknownCSI(nil, nil, 'z'),
+		evUnknownCSI([]byte("48;50;200;1000;2000"), nil, 't'), evUnknownCSI([]byte("?64;1;2;6;9;15;16;17;18;21;22;28"), nil, 'c'),
+		evUnknownCSI([]byte("38;2;255;128;0;48;2;1;2;3;4;5;6;7;8;9;10;11;12;13;14;15;16;17;18;19;20"), []byte(" "), 'q'),
+		evUnknownCSI([]byte(strings.Repeat("1;", 120)+"1"), nil, 'p'),
+	} {
+		for tries := 0; tries < 20; tries++ {
+			pre, post := g.randEvent(r), g.randEvent(r)
+			evs := []event{pre, u, post}
+			if g.ambiguousBoundary(pre, append(append([]byte(nil), u.bytes...), post.bytes...)) || g.ambiguousBoundary(u, post.bytes) {
+				continue
+			}
+			if len(concatEvents(evs)) >= 256 {
+				continue
+			}
+			g.checkExpect(c, "C08", "unknown CSI sequence inside a stream of events is consumed whole", [][]byte{concatEvents(evs)}, expectedOf(evs, kr))
+			break
+		}
+		g.checkExpect(c, "C08", "unknown CSI sequence alone is consumed whole", [][]byte{u.bytes}, expectedOf([]event{u}, kr))
+	}
 	// focus reports alone
 	g.checkExpect(c, "C08", "focus report alone", [][]byte{[]byte("\x1b[I")}, []string{"focus"})
 	g.checkExpect(c, "C08", "blur report alone", [][]byte{[]byte("\x1b[O")}, []string{"blur"})
